@@ -40,8 +40,33 @@ def budget(tier):
     return {"shards": 8, "examples": 700} if tier == "quick" else {"shards": 16, "examples": 6000}
 
 
+@st.composite
+def _case(draw):
+    r = draw(gen.recipe("graph", max_ops=12, bundles=False))
+    # relations of ANOTHER kind re-using the identifier and the two endpoints of an earlier relation
+    # (parallel edges between the same ordered pair that also share their identifier)
+    extra = draw(st.lists(st.tuples(st.integers(0, 30), st.sampled_from(spec.RELATION_KINDS), st.booleans()), max_size=2))
+    ops = list(r["ops"])
+    for sel, kind2, same_id in extra:
+        cands = [o for o in ops if o[0] == "rec" and o[2] in spec.RELATION_KINDS and len(o[4]) >= 2]
+        if not cands:
+            break
+        o = cands[sel % len(cands)]
+        f1 = spec.formal_args(o[2])
+        if f1[1][1] != "ref" or f1[0][0] not in o[4] or f1[1][0] not in o[4]:
+            continue
+        f2 = spec.formal_args(kind2)
+        formal = {f2[0][0]: o[4][f1[0][0]], f2[1][0]: o[4][f1[1][0]]}
+        for a, t in f2[2:spec.mandatory(kind2)]:
+            formal[a] = {"name": {"ns": "http://a/", "local": "e1", "prefix": "ex", "as": "qn"}}
+        ident = o[3] if same_id else None
+        via = "new_record" if (ident is not None and not spec.KINDS[kind2][6]) else "factory"
+        ops.append(["rec", 0, kind2, ident, formal, [], via])
+    return dict(r, ops=ops)
+
+
 def strategy(tier):
-    return gen.recipe("graph", max_ops=12, bundles=False)
+    return _case()
 
 
 def _it(b, **kw):
